@@ -1,0 +1,129 @@
+//go:build verif
+
+package layers
+
+// Contracts added by the sweep group ag3 (C19 first, then C01 / C02 / C04 on the same functions).
+// A DecodeFromBytes that gets a written contract loses the derived ("auto") postcondition about its payload, so
+// each block below restates it where decodeXxx needs it for its progress obligation.
+
+// ---- stdlib facts used below ---------------------------------------------------------------------------------------
+
+//@ extern bytes.Index(s []byte, sep []byte) int
+//@   ensures -1 <= result && result <= len(s)
+//@   ensures result >= 0 ==> result + len(sep) <= len(s)
+//@   modifies nothing
+
+//@ extern strings.Index(s string, substr string) int
+//@   ensures -1 <= result && result <= len(s)
+//@   ensures result >= 0 ==> result + len(substr) <= len(s)
+//@   modifies nothing
+
+// reflect.TypeOf of a non-nil interface value is a non-nil type descriptor.
+//@ extern reflect.TypeOf(i any) reflect.Type
+//@   ensures i != nil ==> result != nil
+//@   modifies nothing
+
+// ---- CIP / ENIP ----------------------------------------------------------------------------------------------------
+
+// CIP response: the additional-status words are read at offset 4 + 2*i, inside data by the length check before the loop.
+//@ func (cip *CIP) DecodeFromBytes(data []byte, df gopacket.DecodeFeedback) error
+//@   props C19 C02 C04
+//@   loop 0: invariant 0 <= i && i <= int(additionalStatusSize) && offset == 4 + 2*i
+
+// An item is at least 2 bytes long and, for a connected data item, lies inside what is left of the packet.
+//@ func getDataFormatIDLen(id uint16, data []byte) (int, error)
+//@   props C19 C01 C02 C04
+//@   ensures result1 == nil ==> 2 <= result0 && result0 <= 65539
+//@   ensures result1 == nil && id == 161 ==> result0 <= len(data) + 2
+
+// getPayload is only called after the 24-byte encapsulation header was read.
+//@ func (enip *ENIP) getPayload(data []byte, df gopacket.DecodeFeedback) (err error)
+//@   props C19 C01 C02 C04
+//@   requires len(data) >= 24
+//@   ensures err == nil ==> (len(enip.Payload) == 0 || len(enip.Payload) < len(data))
+//@   loop 0: invariant 0 <= i && 32 <= csdEnd && csdEnd <= len(data) + 65535
+
+//@ func (enip *ENIP) DecodeFromBytes(data []byte, df gopacket.DecodeFeedback) error
+//@   props C19 C01 C02 C04
+//@   ensures result == nil ==> (len(enip.Payload) == 0 || len(enip.Payload) < len(data))
+
+// ---- SIP / pktap: indices returned by bytes.Index / strings.Index ---------------------------------------------------
+
+// (ParseHeader needs no clause of its own: the extern facts above bound index.)
+
+// ---- DHCPv6 -----------------------------------------------------------------------------------------------------------
+
+// (DHCPv6Option.String: a loop invariant on this value-receiver renderer makes the engine lose the loop condition; none is given.)
+
+// ---- Diameter: every AVP consumes at least its 8-byte header and never more than what is there ------------------------
+
+//@ func (d *Diameter) DecodeFromBytes(data []byte, df gopacket.DecodeFeedback) error
+//@   props C19 C01
+//@   loop 0: decreases len(avpData)
+
+// ---- TLS: a record body handed down is exactly as long as its header says ------------------------------------------------
+
+//@ func (t TLSHandshakeRecord) isEncryptedHandshakeMessage(h TLSRecordHeader, data []byte) bool
+//@   props C19 C01 C02 C04
+//@   requires len(data) == h.Length
+
+//@ func (t *TLSHandshakeRecord) decodeFromBytes(h TLSRecordHeader, data []byte, df gopacket.DecodeFeedback) error
+//@   props C19 C01 C02 C04
+//@   requires len(data) == h.Length
+
+// ---- fixed-stride loops ------------------------------------------------------------------------------------------------
+
+//@ func (v *VRRPv2) DecodeFromBytes(data []byte, df gopacket.DecodeFeedback) error
+//@   props C19 C02 C04
+//@   loop 0: invariant 0 <= i && i <= v.CountIPAddr && offset == 8 + 4*i && addressEnd == 8 + 4*v.CountIPAddr
+
+//@ func decodeRUDP(data []byte, p gopacket.PacketBuilder) error
+//@   props C19 C02 C04
+//@   loop 0: invariant 0 <= i && i % 4 == 0
+
+// LCM: the channel name loop advances offset in step with the (hidden) range index over data[offset0:].
+//@ func (lcm *LCM) DecodeFromBytes(data []byte, df gopacket.DecodeFeedback) error
+//@   props C19 C01 C02 C04
+//@   loop 0: invariant -1 <= rangeindex
+//@   loop 0: invariant 8 <= offset
+//@   loop 0: invariant offset == rangeindex + (lcm.Fragmented ? 21 : 9)
+//@   loop 0: invariant offset <= len(data)
+
+// ---- Geneve ---------------------------------------------------------------------------------------------------------------
+
+//@ func decodeGeneveOption(data []byte, gn *Geneve, df gopacket.DecodeFeedback) (*GeneveOption, uint8, error)
+//@   props C19 C01 C02 C04
+//@   ensures result2 == nil ==> 4 <= result1 && result1 <= 128 && result1 <= len(data)
+
+//@ func (gn *Geneve) DecodeFromBytes(data []byte, df gopacket.DecodeFeedback) error
+//@   props C19 C01 C02 C04
+//@   ensures result == nil ==> (len(gn.Payload) == 0 || len(gn.Payload) < len(data))
+//@   loop 0: invariant 8 <= offset && offset <= len(data)
+//@   loop 0: decreases length
+
+// ---- GTPv1-U --------------------------------------------------------------------------------------------------------------
+
+//@ func (g *GTPv1U) DecodeFromBytes(data []byte, df gopacket.DecodeFeedback) error
+//@   props C19 C01 C02 C04
+//@   ensures result == nil ==> (len(g.Payload) == 0 || len(g.Payload) < len(data))
+//@   loop 0: invariant 12 <= cIndex && cIndex <= dLen && dLen == len(data)
+//@   loop 0: decreases dLen - cIndex
+
+// ---- USB / PFLog: the payload starts behind the header ----------------------------------------------------------------------
+
+//@ func (m *USB) DecodeFromBytes(data []byte, df gopacket.DecodeFeedback) error
+//@   props C19 C01
+//@   ensures result == nil ==> (len(m.Payload) == 0 || len(m.Payload) < len(data))
+
+// ---- DNS label collection ---------------------------------------------------------------------------------------------------
+
+//@ func collectDNSWireLabels(data []byte, offset, end int) dnsNameLabels
+//@   props C19 C01
+//@   requires 0 <= offset
+//@   loop 0: invariant 0 <= offset
+
+// ---- RADIUS: the EAP payload is assembled in memory owned by the layer ---------------------------------------------------------
+
+//@ func (radius *RADIUS) DecodeFromBytes(data []byte, df gopacket.DecodeFeedback) error
+//@   props C02
+//@   loop 1: invariant cap(radius.BaseLayer.Payload) == 0 || radius.BaseLayer.Payload.arr != data.arr
